@@ -1,6 +1,7 @@
 """C05 - results do not depend on n_jobs, backend or scheduling."""
 import copy
 import itertools
+import os
 import pickle
 
 import numpy as np
@@ -125,8 +126,9 @@ def locality_plan_st(draw, tier, ctx):
             cuts = sorted(draw(st.lists(st.integers(1, n - 1), min_size=1, max_size=n - 1, unique=True)))
             comps.append(cuts)
     order_key = draw(st.lists(st.integers(0, 5), min_size=n, max_size=n))
+    interleave = draw(st.lists(st.integers(0, 2), min_size=3, max_size=12)) if draw(st.booleans()) else None
     return {"config": cfg, "ops": h.ops, "rows": rows, "seeds": seeds, "comps": comps, "order_key": order_key,
-            "is_predict": draw(st.booleans())}
+            "is_predict": draw(st.booleans()), "interleave": interleave}
 
 
 def locality_strategy(tier, ctx):
@@ -177,7 +179,36 @@ def evaluate_locality(plan, ctx):
             raise Violation("partition_dependent", "thread-like, chunks %r in order %r: rows give %s, whole batch %s"
                             % (chunks, order, ops.short(got), ops.short(whole)),
                             bucket="partition_dependent:" + _class(cfg))
-    return Result(nt, twin.pair_events(cfg) + ["compositions=%s" % ("all" if plan["comps"] is None else "drawn")])
+    # preemptive threads: two or three chunk tasks on the SAME object, switched at every Python-level call inside
+    # mabwiser according to a generated schedule (exactly one thread runs at a time, so the run is deterministic)
+    ev_extra = []
+    sched_keys = plan.get("interleave")
+    if sched_keys:
+        cuts = comps[(sum(sched_keys) + len(sched_keys)) % len(comps)]
+        bounds = [0] + list(cuts) + [n]
+        chunks = list(zip(bounds, bounds[1:]))[:3]
+        if len(chunks) >= 2:
+            last = chunks[-1][1]
+            shared = pickle.loads(blob)
+            import mabwiser
+            prefix = os.path.dirname(os.path.abspath(mabwiser.__file__))
+            tasks = [(lambda s=s, e=e: shared._predict_contexts(rows[s:e], is_predict, seeds[s:e], s)) for s, e in chunks]
+            try:
+                res, switches = sched.interleaved(tasks, sched_keys, prefix)
+            except Exception as e:
+                raise Violation("interleaving_raised", "chunks %r interleaved with schedule %r raised %r"
+                                % (chunks, sched_keys, e), bucket="interleaving_raised:" + _class(cfg))
+            got = [x for r in res for x in canon_list(kind, r)]
+            if not ops.same(got, whole[:last]):
+                raise Violation("partition_dependent", "preemptive threads, chunks %r, schedule %r (%d switches): rows "
+                                "give %s, whole batch %s" % (chunks, sched_keys, switches, ops.short(got),
+                                                             ops.short(whole[:last])),
+                                bucket="schedule_dependent_preemptive:" + _class(cfg))
+            ev_extra.append("preemptive_interleaving")
+            if switches >= 2:
+                nt = True
+    return Result(nt, twin.pair_events(cfg) + ev_extra +
+                  ["compositions=%s" % ("all" if plan["comps"] is None else "drawn")])
 
 
 def _class(cfg):
